@@ -320,6 +320,7 @@ func (c11) Exec(plan any, c *Ctx) *Violation {
 	observeUnknownAPI = false
 	p := plan.(*C11Plan)
 	c11Pending = nil
+	c11AliasTick = p.Salt % 5
 	var m *cors.Middleware
 	configured := false
 	if p.StartZero || len(p.Cfgs) == 0 {
@@ -492,10 +493,22 @@ func c11Wire(m *cors.Middleware, p *C11Plan, c *Ctx) *Violation {
 	return nil
 }
 
+var c11AliasTick int
+
 func c11Case(m *cors.Middleware, via http.Handler, dg *delegate, configured bool, q Req, preset []HV, sc Script, label string, c *Ctx) *Violation {
 	rec := newRec(preset)
-	presetMap := cloneHeader(rec.h)
 	req := q.build()
+	// every fifth case: an OUTER layer of this very library has run before (two policy layers
+	// stacked): it has set Access-Control-Allow-Origin to a slice that ALIASES the request's own
+	// Origin field lines, as the library does for an allowed origin. Whoever recycles that
+	// slice writes into the request.
+	c11AliasTick++
+	if o := req.Header["Origin"]; c11AliasTick%5 == 0 && len(o) > 0 {
+		rec.h["Access-Control-Allow-Origin"] = o[:1]
+		rec.h["Vary"] = append(rec.h["Vary"], "Origin")
+		c.hit("preset_acao_aliases_the_request_origin")
+	}
+	presetMap := cloneHeader(rec.h)
 	h := &scriptHandler{sc: sc, wantReq: req, wantW: rec, rec: rec, reqSent: req.Method + " " + headerFP(req.Header)}
 	pre := isPreflightC11(req)
 	// reach counters
